@@ -18,7 +18,7 @@ from common import *
 
 # the specification models the repaired tree (see findings/known_findings.jsonl)
 FLAGS = dict(Transitive=True, TopoSort=True, ExitFix=True, OrderedAuto=True,
-             OrderedTopo=True)
+             OrderedTopo=True, LoopFix=True, EndFix=True)
 
 FORMULAS = {
     "C01": ["c01", "c01pred"],
@@ -26,6 +26,7 @@ FORMULAS = {
     "C03": ["c03"],
     "C05": ["c05"],
     "C07": ["c07follows", "c07only", "c07judged", "nocrash"],
+    "C08": ["c08", "nocrash", "nohang"],
     "C11": [],
     "C14": ["c14", "c14last"],
 }
@@ -38,6 +39,7 @@ INVARIANTS = {
     "C03": ["Inv_C03"],
     "C05": ["Inv_C05"],
     "C07": ["Inv_C07_AutoFollows", "Inv_C07_OnlyWhenDemanded", "Inv_C07_Judged", "Inv_NoCrash"],
+    "C08": ["Inv_C08", "Inv_NoHang", "Inv_NoCrash", "Inv_C01_State"],
     "C11": ["Inv_C01_State"],
     "C14": ["Inv_C14", "Inv_C14_Last"],
 }
@@ -66,7 +68,7 @@ PLANS = {
 
 
 def mc_configs(prop, tier, sd):
-    base = dict(FLAGS, QueueLimit=5, MaxRel=1, ShardMod=1, ShardIdx=0)
+    base = dict(FLAGS, QueueLimit=5, MaxRel=1, ShardMod=1, ShardIdx=0, FaultMode=False)
     cfgs = []
     if tier == "quick":
         cfgs.append(("AB flags, 2 calls, <=1 veto, shard 1/4",
@@ -129,7 +131,8 @@ def reconstruct_case(path, lineno):
     return dict(label=init["label"], names=names, schema=raw, on=init["hs"]["on"],
                 binds=init["hs"]["binds"] if init["hs"]["on"] else [],
                 calls=[dict(type=c["type"], called=c["called"], check=c["check"],
-                            veto=c["veto"], nest=c["nest"]) for c in calls])
+                            veto=c["veto"], nest=c["nest"], panic=c.get("panic", []),
+                            stall=c.get("stall", [])) for c in calls])
 
 
 def generate(binary, plan, outdir, sd):
